@@ -489,4 +489,177 @@ theorem destroy_spec (t : Tab) (h : t.Inv) : (destroy t).1.ledger = [] ∧ (dest
     obtain ⟨h1, h2⟩ := Tab.apply_good hg'
     exact ⟨by simpa using h2, by rw [h1, h.bad]⟩
 
+
+/-! ### histories over several objects -/
+
+theorem World.mem_put {w : World} {i : Nat} {o x : Option Tab} (h : x ∈ (w.put i o).objs) :
+    x = o ∨ x ∈ w.objs ∨ x = none := by
+  simp only [World.put] at h
+  rcases List.mem_or_eq_of_mem_set h with h | h
+  · rcases List.mem_append.mp h with h | h
+    · exact Or.inr (Or.inl h)
+    · exact Or.inr (Or.inr (List.eq_of_mem_replicate h))
+  · exact Or.inl h
+
+theorem World.get_mem {w : World} {i : Nat} {t : Tab} (h : w.get i = some t) : some t ∈ w.objs := by
+  simp only [World.get, List.getD_eq_getElem?_getD] at h
+  cases hi : w.objs[i]? with
+  | none => simp [hi] at h
+  | some x =>
+    simp [hi] at h
+    subst h
+    exact List.mem_of_getElem? hi
+
+theorem World.get_put_same (w : World) (i : Nat) (o : Option Tab) : (w.put i o).get i = o := by
+  simp only [World.get, World.put, List.getD_eq_getElem?_getD]
+  rw [List.getElem?_set_self (by simp; omega)]
+  rfl
+
+theorem World.get_put_ne (w : World) {i j : Nat} (o : Option Tab) (h : i ≠ j) : (w.put i o).get j = w.get j := by
+  simp only [World.get, World.put, List.getD_eq_getElem?_getD]
+  rw [List.getElem?_set_ne h]
+  by_cases hj : j < w.objs.length
+  · rw [List.getElem?_append_left hj]
+  · rw [List.getElem?_append_right (by omega)]
+    have : w.objs[j]? = none := List.getElem?_eq_none (by omega)
+    rw [this]
+    cases hh : (List.replicate (i + 1 - w.objs.length) (none : Option Tab))[j - w.objs.length]? with
+    | none => rfl
+    | some x =>
+      have := List.mem_of_getElem? hh
+      rw [List.eq_of_mem_replicate this]
+      rfl
+
+/-- every live object satisfies its invariant; every object that died returned all memory exactly once -/
+structure World.Inv (w : World) : Prop where
+  live : ∀ t, some t ∈ w.objs → t.Inv
+  dead : ∀ r, r ∈ w.retired → r = ([], 0)
+
+theorem World.Inv.put {w : World} (h : w.Inv) (i : Nat) {o : Option Tab} (ho : ∀ t, o = some t → t.Inv) :
+    (w.put i o).Inv := by
+  refine ⟨fun t ht => ?_, h.dead⟩
+  rcases World.mem_put ht with e | e | e
+  · exact ho t e.symm
+  · exact h.live t e
+  · cases e
+
+theorem onTab_inv {w : World} {i : Nat} {f : Tab → Option Nat → Out} (h : w.Inv)
+    (hf : ∀ t, t.Inv → (f t w.cd).tab.Inv) : (onTab w i f).w.Inv := by
+  unfold onTab
+  cases hg : w.get i with
+  | none => exact h
+  | some t =>
+    have hi := h.live t (World.get_mem hg)
+    have := h.put i (o := some (f t w.cd).tab) (fun t' e => by cases e; exact hf t hi)
+    exact ⟨this.live, this.dead⟩
+
+theorem step_inv {w : World} (h : w.Inv) (op : Op) : (step Cfg.repaired w op).w.Inv := by
+  cases op with
+  | construct i =>
+    simp only [step]
+    cases hg : w.get i with
+    | some _ => exact h
+    | none => exact h.put i (fun t e => by cases e; exact Tab.empty_inv)
+  | constructFile i f =>
+    simp only [step]
+    cases hg : w.get i with
+    | some _ => exact h
+    | none =>
+      have hs := read_spec Tab.empty w.cd f Tab.empty_inv
+      dsimp only
+      split
+      · have := h.put i (o := some (read Cfg.repaired Tab.empty w.cd f).tab) (fun t e => by cases e; exact hs.1)
+        exact ⟨this.live, this.dead⟩
+      · rename_i hr
+        refine ⟨h.live, fun r hr' => ?_⟩
+        rcases List.mem_cons.mp hr' with e | e
+        · subst e
+          -- the read failed: the shape is unchanged (empty), so the ledger is empty
+          have hres : (read Cfg.repaired Tab.empty w.cd f).res = .threw := by
+            have hne := hs.2.2
+            cases hres : (read Cfg.repaired Tab.empty w.cd f).res <;> simp_all
+            all_goals
+              (unfold read at hres; simp only [show Cfg.repaired.readGuard = true from rfl] at hres
+               split at hres
+               · simp at hres
+               · split at hres
+                 · simp at hres
+                 · simp only [build] at hres
+                   split at hres <;> simp at hres)
+          have hsh := hs.2.1 hres
+          have hnd : (read Cfg.repaired Tab.empty w.cd f).tab.ndim = 0 := by
+            rcases hsh with e | e
+            · have := congrArg Prod.fst e; simpa [Tab.shape, Tab.empty] using this
+            · simp [Tab.isEmpty] at e; exact e.1.1.1.1.1.1
+          rw [hs.1.ledger_nil hnd, hs.1.bad]
+        · exact h.dead r e
+  | read i f => exact onTab_inv h fun t ht => (read_spec t _ f ht).1
+  | fit i a => exact onTab_inv h fun t ht => (fit_spec t _ a ht).1
+  | writeKey i a => exact onTab_inv h fun t ht => (writeKey_spec t _ a ht).1
+  | removeKey i id => exact onTab_inv h fun t ht => (removeKey_spec t _ id ht).1
+  | getKey i id => exact onTab_inv h fun t ht => ht
+  | convolve i dim nk => exact onTab_inv h fun t ht => (convolve_spec t _ dim nk ht).1
+  | permute i p => exact onTab_inv h fun t ht => (permute_spec t _ p ht).1
+  | writeFits i => exact onTab_inv h fun t ht => ht
+  | moveConstruct i j =>
+    simp only [step]
+    cases hi : w.get i with
+    | some _ => cases w.get j <;> exact h
+    | none =>
+      cases hj : w.get j with
+      | none => exact h
+      | some s =>
+        have hs := h.live s (World.get_mem hj)
+        exact (h.put i (o := some s) (fun t e => by cases e; exact hs)).put j (fun t e => by cases e; exact Tab.empty_inv)
+  | moveAssign i j =>
+    simp only [step]
+    cases hi : w.get i with
+    | none => cases w.get j <;> exact h
+    | some t =>
+      cases hj : w.get j with
+      | none => exact h
+      | some s =>
+        have ht := h.live t (World.get_mem hi)
+        have hs := h.live s (World.get_mem hj)
+        dsimp only
+        split
+        · exact h
+        · simp only [show Cfg.repaired.moveAssignRelease = true from rfl, if_true]
+          have h2 := (h.put i (o := some s) (fun t e => by cases e; exact hs)).put j (o := some Tab.empty) (fun t e => by cases e; exact Tab.empty_inv)
+          refine ⟨h2.live, fun r hr => ?_⟩
+          rcases List.mem_cons.mp hr with e | e
+          · subst e; obtain ⟨a, b⟩ := destroy_spec t ht; rw [a, b]
+          · exact h.dead r e
+  | compare i j =>
+    simp only [step]
+    cases hi : w.get i with
+    | none => cases w.get j <;> exact h
+    | some t =>
+      cases hj : w.get j with
+      | none => exact h
+      | some s =>
+        dsimp only
+        split
+        · exact h
+        · split <;> exact h
+  | destroy i =>
+    simp only [step]
+    cases hi : w.get i with
+    | none => exact h
+    | some t =>
+      have ht := h.live t (World.get_mem hi)
+      have h2 := h.put i (o := none) (fun t e => by cases e)
+      refine ⟨h2.live, fun r hr => ?_⟩
+      rcases List.mem_cons.mp hr with e | e
+      · subst e; obtain ⟨a, b⟩ := destroy_spec t ht; rw [a, b]
+      · exact h.dead r e
+
+theorem World.init_inv (cd : Option Nat) : (World.init cd).Inv :=
+  ⟨fun t h => by simp [World.init] at h, fun r h => by simp [World.init] at h⟩
+
+theorem run_inv {w : World} (h : w.Inv) (ops : List Op) : (run Cfg.repaired w ops).Inv := by
+  induction ops generalizing w with
+  | nil => exact h
+  | cons op ops ih => exact ih (step_inv h op)
+
 end PsV.Lifecycle
